@@ -1,3 +1,105 @@
 import HapVerif.Model.C07
+import HapVerif.Generated.Facts
+import HapVerif.Props.C07Dyn
+import HapVerif.Props.C07Auth
+/-!
+# C07 — every generated configuration is loadable: references resolve, names are unique
+
+* server names unique inside a backend over every history of dynamic updates and reloads:
+  `HapVerif.C07.server_names_nodup*` (Props/C07Dyn.lean, on the shared M-Dyn model);
+* auth-proxy ports never handed out twice, always inside the range, "list is full" exactly when the
+  range is exhausted: Props/C07Auth.lean;
+* path ids of a backend are unique and every link has exactly one id (below);
+* dangling references / duplicated sections are searched on every configuration the real pipeline
+  writes (lint pass of the world runner).
+-/
 namespace HapVerif.C07
+
+theorem addPath_length_le (ps : Paths) (l : String) : ps.length ≤ (addPath ps l).length := by
+  unfold addPath; split <;> simp
+
+theorem addPath_wellNumbered (ps : Paths) (l : String) (h : WellNumbered ps) : WellNumbered (addPath ps l) := by
+  unfold addPath
+  split
+  · exact h
+  · unfold WellNumbered at *
+    simp [List.map_append, h, List.range_succ]
+
+/-- **path ids** — for every sequence of `AddBackendPath` calls the ids are 1..n … -/
+theorem addAll_wellNumbered (links : List String) : WellNumbered (addAll links) := by
+  unfold addAll
+  suffices h : ∀ (ps : Paths), WellNumbered ps → WellNumbered (links.foldl addPath ps) from h [] (by simp [WellNumbered])
+  induction links with
+  | nil => intro ps h; exact h
+  | cons l ls ih => intro ps h; exact ih _ (addPath_wellNumbered ps l h)
+
+/-- … hence pairwise distinct -/
+theorem path_ids_nodup (links : List String) : ((addAll links).map (·.2)).Nodup := by
+  rw [addAll_wellNumbered links]
+  unfold List.Nodup
+  exact List.Pairwise.map (· + 1) (fun a b (h : a < b) => by omega) List.pairwise_lt_range
+
+theorem addPath_links_nodup (ps : Paths) (l : String) (h : (ps.map (·.1)).Nodup) :
+    ((addPath ps l).map (·.1)).Nodup := by
+  unfold addPath
+  split
+  · exact h
+  · rename_i hn
+    simp only [List.map_append, List.map_cons, List.map_nil]
+    refine List.nodup_append.mpr ⟨h, by simp, ?_⟩
+    intro a ha b hb
+    simp only [List.mem_singleton] at hb
+    subst hb
+    intro e; subst e
+    apply hn
+    simp only [List.mem_map] at ha
+    obtain ⟨x, hx, e⟩ := ha
+    simp only [List.any_eq_true, decide_eq_true_eq]
+    exact ⟨x, hx, e⟩
+
+/-- every link has exactly one entry (so an id map never has two ids for one path) -/
+theorem path_links_nodup (links : List String) : ((addAll links).map (·.1)).Nodup := by
+  unfold addAll
+  suffices h : ∀ (ps : Paths), (ps.map (·.1)).Nodup → ((links.foldl addPath ps).map (·.1)).Nodup from h [] (by simp)
+  induction links with
+  | nil => intro ps h; exact h
+  | cons l ls ih => intro ps h; exact ih _ (addPath_links_nodup ps l h)
+
+theorem addPath_mem_mono (ps : Paths) (x l : String) (h : l ∈ ps.map (·.1)) : l ∈ (addPath ps x).map (·.1) := by
+  unfold addPath; split
+  · exact h
+  · simp only [List.map_append, List.mem_append]; exact Or.inl h
+
+theorem addPath_self (ps : Paths) (x : String) : x ∈ (addPath ps x).map (·.1) := by
+  unfold addPath; split
+  · rename_i h
+    simp only [List.any_eq_true, decide_eq_true_eq] at h
+    obtain ⟨e, he, hx⟩ := h
+    exact List.mem_map.mpr ⟨e, he, hx⟩
+  · simp
+
+theorem foldl_addPath_present (links : List String) (l : String) :
+    ∀ (ps : Paths), (l ∈ ps.map (·.1) ∨ l ∈ links) → l ∈ (links.foldl addPath ps).map (·.1) := by
+  induction links with
+  | nil => intro ps h; rcases h with h | h
+           · exact h
+           · cases h
+  | cons x xs ih =>
+    intro ps hh
+    apply ih
+    rcases hh with h | h
+    · exact Or.inl (addPath_mem_mono ps x l h)
+    · rcases List.mem_cons.mp h with e | h'
+      · subst e; exact Or.inl (addPath_self ps l)
+      · exact Or.inr h'
+
+/-- every requested link got an id -/
+theorem path_link_present (links : List String) (l : String) (h : l ∈ links) : l ∈ (addAll links).map (·.1) :=
+  foldl_addPath_present links l [] (Or.inr h)
+
+/-- regenerated from the Go source -/
+theorem facts_c07 : Facts.c07PathIDFormat = "path%02d" := by decide
+
+example : addAll ["a", "b", "a", "c"] = [("a", 1), ("b", 2), ("c", 3)] := by decide
+
 end HapVerif.C07
